@@ -13,7 +13,39 @@ const (
 	txCOMMITTED = int32(configapi.TransactionStatus_COMMITTED)
 	txAPPLIED   = int32(configapi.TransactionStatus_APPLIED)
 	txFAILED    = int32(configapi.TransactionStatus_FAILED)
+
+	pvVALIDATED = int32(configapi.ProposalValidatePhase_VALIDATED)
+	pvFAILED    = int32(configapi.ProposalValidatePhase_FAILED)
+	paAPPLYING  = int32(configapi.ProposalApplyPhase_APPLYING)
+	paAPPLIED   = int32(configapi.ProposalApplyPhase_APPLIED)
+	paFAILED    = int32(configapi.ProposalApplyPhase_FAILED)
 )
+
+// StateRange: every index-valued field is a log index (or NX+1 for a rollback request naming a missing entry).
+// A type invariant of the harness state; the bounded model checker also checks that it is never left.
+func StateRange() bool {
+	ok := true
+	const m = NX + 1
+	for i := 0; i < NX; i++ {
+		ok = ok && S.Txs[i].RollbackIndex <= m
+		for t := 0; t < NT; t++ {
+			p := &S.Props[t][i]
+			ok = ok && p.Prev <= m && p.Next <= m && p.RollbackIndex <= m && p.ApplyTerm < 100
+			for j := 0; j < NX; j++ {
+				ok = ok && p.Rollback[j].Index <= m
+			}
+		}
+	}
+	for t := 0; t < NT; t++ {
+		c := &S.Configs[t]
+		ok = ok && c.Index <= m && c.Proposed <= m && c.Committed <= m && c.Applied <= m && S.MaxCommitted[t] <= m && S.LastMerged[t] <= m
+		ok = ok && c.Term < 100 && c.AppliedTerm < 100 && S.Devs[t].MaxElection < 100
+		for j := 0; j < NX; j++ {
+			ok = ok && c.Values[j].Index <= m && c.AppliedVals[j].Index <= m
+		}
+	}
+	return ok && S.Crashes < 100 && S.Faults < 100
+}
 
 // live: leaf j is readable in target t's stored configuration
 func live(t, j int) bool {
@@ -23,7 +55,7 @@ func live(t, j int) bool {
 
 // altered: target t's stored configuration reflects transaction slot i (its own leaf is live and stamped with its index)
 func altered(t, i int) bool {
-	return live(t, i) && S.Configs[t].Values[i].Index == uint64(i+1)
+	return live(t, i) && S.Configs[t].Values[i].Index == uint8(i+1)
 }
 
 func txTerminal(i int) bool {
@@ -44,29 +76,14 @@ func txTerminal(i int) bool {
 	return false
 }
 
-// StateRange: every index-valued field is a log index (or NX+1 for a rollback request naming a missing entry).
-// A type invariant of the harness state; the bounded model checker also checks that it is never left.
-func StateRange() bool {
-	ok := true
-	const m = NX + 1
-	for i := 0; i < NX; i++ {
-		ok = ok && S.Txs[i].RollbackIndex <= m
-		for t := 0; t < NT; t++ {
-			p := &S.Props[t][i]
-			ok = ok && p.Prev <= m && p.Next <= m && p.RollbackIndex <= m
-			for j := 0; j < NX; j++ {
-				ok = ok && p.Rollback[j].Index <= m
-			}
+// a later rollback transaction names slot i and has started committing
+func rolledBackLater(i int) bool {
+	for k := i + 1; k < NX; k++ {
+		if S.Txs[k].Exists && S.Txs[k].IsRollback && S.Txs[k].RollbackIndex == uint8(i+1) && S.Txs[k].Commit.Present {
+			return true
 		}
 	}
-	for t := 0; t < NT; t++ {
-		c := &S.Configs[t]
-		ok = ok && c.Index <= m && c.Proposed <= m && c.Committed <= m && c.Applied <= m && S.MaxCommitted[t] <= m
-		for j := 0; j < NX; j++ {
-			ok = ok && c.Values[j].Index <= m && c.AppliedVals[j].Index <= m
-		}
-	}
-	return ok
+	return false
 }
 
 // StatePredicates names the state predicates used by the bounded model checker (evaluated on S).
@@ -76,15 +93,30 @@ func StatePredicates(prefix string) {
 	verifrt.Region(prefix+"reach:tx1-committed", S.Txs[0].State == txCOMMITTED || S.Txs[0].State == txAPPLIED)
 	verifrt.Region(prefix+"reach:tx1-applied", S.Txs[0].State == txAPPLIED)
 	verifrt.Region(prefix+"reach:tx1-failed", S.Txs[0].State == txFAILED)
+	verifrt.Region(prefix+"reach:tx1-failed-aborted", S.Txs[0].State == txFAILED && txTerminal(0) && !S.Txs[0].Apply.Present)
+	verifrt.Region(prefix+"reach:tx1-apply-failed", S.Txs[0].State == txFAILED && S.Txs[0].Apply.Present)
+	if NT > 1 {
+		verifrt.Region(prefix+"reach:tx1-committed-on-two-targets", S.Txs[0].State == txCOMMITTED && S.Txs[0].Targets[0] && S.Txs[0].Targets[NT-1])
+	}
 	if NX > 1 {
+		verifrt.Region(prefix+"reach:tx2-committed", S.Txs[1].State == txCOMMITTED || S.Txs[1].State == txAPPLIED)
 		verifrt.Region(prefix+"reach:tx2-applied", S.Txs[1].State == txAPPLIED)
 		verifrt.Region(prefix+"reach:tx2-failed-aborted", S.Txs[1].State == txFAILED && txTerminal(1))
 	}
-	allTerminal := true
+	verifrt.Region(prefix+"reach:crashed", S.Crashes > 0)
+	verifrt.Region(prefix+"reach:fault", S.Faults > 0)
+	allTerminal, connected, anyTx := true, true, false
 	for i := 0; i < NX; i++ {
 		allTerminal = allTerminal && txTerminal(i)
+		anyTx = anyTx || S.Txs[i].Exists
 	}
-	verifrt.Region(prefix+"all-terminal", allTerminal)
+	for t := 0; t < NT; t++ {
+		connected = connected && S.Devs[t].Connected
+	}
+	verifrt.Region(prefix+"all-terminal", allTerminal && anyTx)
+	// C09 / C07: used together with the fixed-point probe: nothing can move, every target is connected, yet
+	// some accepted transaction is not final
+	verifrt.Region(prefix+"bad:stranded", !allTerminal && connected)
 
 	// ---- C01: all-or-nothing per change transaction
 	partial := false // committed/applied but some named target not altered
@@ -104,7 +136,7 @@ func StatePredicates(prefix string) {
 			if !tx.Targets[t] {
 				continue
 			}
-			if (tx.State == txCOMMITTED || tx.State == txAPPLIED) && !altered(t, i) && !rolledBackLater(t, i) {
+			if (tx.State == txCOMMITTED || tx.State == txAPPLIED) && !altered(t, i) && !rolledBackLater(i) {
 				partial = true
 			}
 			if (rejected || (tx.State == txFAILED && !tx.Commit.Present)) && altered(t, i) {
@@ -116,56 +148,107 @@ func StatePredicates(prefix string) {
 	verifrt.Region(prefix+"bad:c01-rejected-but-target-altered", leaked)
 
 	// ---- C02: ghost monitors
-	dec := false
+	dec, ahead := false, false
 	for t := 0; t < NT; t++ {
 		if S.Configs[t].Exists && S.Configs[t].Committed < S.MaxCommitted[t] {
 			dec = true
 		}
-	}
-	verifrt.Region(prefix+"bad:c02-committed-index-decreased", dec)
-	ahead := false
-	for t := 0; t < NT; t++ {
 		if S.Configs[t].Exists && S.Configs[t].Applied > S.Configs[t].Committed {
 			ahead = true
 		}
 	}
+	verifrt.Region(prefix+"bad:c02-committed-index-decreased", dec)
 	verifrt.Region(prefix+"bad:c02-applied-ahead-of-committed", ahead)
+	verifrt.Region(prefix+"bad:c02-merge-out-of-order", S.MergeOutOfOrder)
+	verifrt.Region(prefix+"bad:c02-send-before-merge", S.SendBeforeMerge)
+	verifrt.Region(prefix+"bad:c02-send-out-of-order", S.SendOutOfOrder)
+	// ---- C10
+	verifrt.Region(prefix+"bad:c10-send-with-stale-election-id", S.SendNotMaster)
+	verifrt.Region(prefix+"bad:c10-send-before-resync", S.SendWhileUnsynced)
 }
 
-// a later rollback transaction names slot i and has been committed on target t
-func rolledBackLater(t, i int) bool {
-	for k := i + 1; k < NX; k++ {
-		if S.Txs[k].Exists && S.Txs[k].IsRollback && S.Txs[k].RollbackIndex == uint64(i+1) && S.Txs[k].Commit.Present {
-			return true
-		}
-	}
-	return false
-}
-
-// StepContracts are obligations on one step from an arbitrary state (guard-shaped: they hold wherever the code
-// checks its guard locally, reachable state or not).
+// StepContracts are obligations on one step from an arbitrary state. A contract that fails from an unreachable
+// state is not a finding: the driver asks the bounded model checker for a schedule that reaches the failing step.
 func StepContracts(pre *State, choice int) {
 	for t := 0; t < NT; t++ {
 		a, b := &pre.Configs[t], &S.Configs[t]
-		valuesChanged := false
-		for j := 0; j < NX; j++ {
-			if a.Values[j] != b.Values[j] {
-				valuesChanged = true
+		merger := -1
+		for i := 0; i < NX; i++ {
+			if choice == ChProp+t*NX+i {
+				merger = i
 			}
 		}
-		if a.Exists && valuesChanged {
+		if a.Exists && a.Values != b.Values {
 			verifrt.Cover("values-changed")
 			// C02: a merge happens only by the proposal whose predecessor is the last committed one, and stamps its index
-			merger := -1
-			if choice >= ChProp && choice < ChCfg && (choice-ChProp)/NX == t {
-				merger = (choice - ChProp) % NX
-			}
 			verifrt.Assert(merger >= 0, "c02-values-change-only-in-proposal-step")
 			if merger >= 0 {
-				verifrt.Assert(a.Committed == pre.Props[t][merger].Prev, "c02-merge-needs-predecessor-committed")
-				verifrt.Assert(b.Committed == uint64(merger+1), "c02-merge-stamps-own-index")
-				verifrt.Assert(pre.Props[t][merger].Commit.Present && !pre.Props[t][merger].Abort.Present, "c01-merge-only-in-commit-phase")
+				pp := &pre.Props[t][merger]
+				verifrt.Assert(a.Committed == pp.Prev, "c02-merge-needs-predecessor-committed")
+				verifrt.Assert(b.Committed == uint8(merger+1), "c02-merge-stamps-own-index")
+				verifrt.Assert(pp.Commit.Present && !pp.Abort.Present && !pp.Apply.Present, "c01-merge-only-in-commit-phase")
+				// C05: nothing is merged that the model has not accepted
+				verifrt.Assert(pp.Validate.Present && pp.Validate.State == pvVALIDATED, "c05-merge-needs-validated-proposal")
+			}
+		}
+		// C02/C10: index and term fields never decrease in a reconcile step
+		if a.Exists && b.Exists {
+			verifrt.Assert(b.Applied >= a.Applied, "c02-applied-index-never-decreases")
+			verifrt.Assert(b.Proposed >= a.Proposed, "c02-proposed-index-never-decreases")
+			verifrt.Assert(b.Term >= a.Term, "c10-term-never-decreases")
+		}
+		// C05 / C01: a proposal becomes VALIDATED only with a true verdict of this very step, on top of its predecessor's commit
+		for i := 0; i < NX; i++ {
+			pa, pb := &pre.Props[t][i], &S.Props[t][i]
+			was := pa.Validate.Present && pa.Validate.State == pvVALIDATED
+			is := pb.Validate.Present && pb.Validate.State == pvVALIDATED
+			if pa.Exists && !was && is {
+				verifrt.Cover("validated")
+				verifrt.Assert(choice == ChProp+t*NX+i, "c05-validated-only-by-own-proposal-step")
+				verifrt.Assert(S.Verdict[t][i], "c05-validated-needs-plugin-acceptance")
+				verifrt.Assert(pa.Prev == 0 || a.Committed == pa.Prev, "c05-validation-on-top-of-predecessor-commit")
+				verifrt.Assert(a.Values == b.Values, "c05-validation-leaves-configuration-untouched")
+			}
+			// C11: an apply that failed is recorded with a failure, advances the applied index, leaves applied values alone
+			wasF := pa.Apply.Present && pa.Apply.State == paFAILED
+			isF := pb.Apply.Present && pb.Apply.State == paFAILED
+			if pa.Exists && !wasF && isF {
+				verifrt.Cover("apply-failed")
+				verifrt.Assert(pb.ApplyFailed, "c11-failed-apply-records-failure")
+				verifrt.Assert(b.Applied == uint8(i+1), "c11-failed-apply-advances-applied-index")
+				verifrt.Assert(a.AppliedVals == b.AppliedVals, "c11-failed-apply-leaves-applied-values")
+				verifrt.Assert(pre.Devs[t].Vals == S.Devs[t].Vals, "c11-failed-apply-leaves-device")
 			}
 		}
 	}
+	// C01: a transaction enters Commit only if every one of its proposals is VALIDATED, never if one FAILED
+	for i := 0; i < NX; i++ {
+		ta, tb := &pre.Txs[i], &S.Txs[i]
+		if ta.Exists && !ta.Commit.Present && tb.Commit.Present {
+			verifrt.Cover("tx-commit-opened")
+			tg := txTargetsOf(pre, i)
+			for t := 0; t < NT; t++ {
+				if tg[t] {
+					pp := &pre.Props[t][i]
+					verifrt.Assert(pp.Exists && pp.Validate.Present && pp.Validate.State == pvVALIDATED, "c01-commit-needs-all-proposals-validated")
+				}
+			}
+		}
+		// C08/C11: a transaction turns FAILED only with a recorded failure
+		if ta.Exists && ta.State != txFAILED && tb.State == txFAILED {
+			verifrt.Assert(tb.Failed, "c11-failed-transaction-records-failure")
+		}
+	}
+}
+
+func txTargetsOf(st *State, i int) [NT]bool {
+	rec := &st.Txs[i]
+	if !rec.IsRollback {
+		return rec.Targets
+	}
+	var none [NT]bool
+	if rec.RollbackIndex < 1 || rec.RollbackIndex > NX {
+		return none
+	}
+	return st.Txs[rec.RollbackIndex-1].Targets
 }
